@@ -13,6 +13,7 @@ import (
 	"runtime/debug"
 	"sort"
 	"strings"
+	"syscall"
 	"time"
 
 	"verifsim/gen"
@@ -29,6 +30,7 @@ type InFile struct {
 	Path    string `json:"path"`
 	Content string `json:"content"`
 	Mode    uint32 `json:"mode,omitempty"`
+	Kind    string `json:"kind,omitempty"` // "" regular file; "dangling-link"; "fifo"
 }
 
 type World struct {
@@ -57,6 +59,8 @@ type World struct {
 	AltSeed  uint64            `json:"alt_seed,omitempty"`
 	AltSites []string          `json:"alt_sites,omitempty"`
 	AltAll   bool              `json:"alt_all,omitempty"`
+	// StdoutFailFrom: the report stream is broken from this write on (1 = from the first byte, like `> /dev/full`)
+	StdoutFailFrom int `json:"stdout_fail_from,omitempty"`
 	// RunFrom: the command is started from this (new, empty) sub-directory of the world's directory,
 	// with every relative pattern and -o respelled relative to it ("../..."): same files, other cwd
 	RunFrom string `json:"run_from,omitempty"`
@@ -401,7 +405,14 @@ func Exec(t Target, w *World) *Result {
 		if f.Mode != 0 {
 			mode = os.FileMode(f.Mode)
 		}
-		must(os.WriteFile(inPath(f.Path), []byte(f.Content), mode))
+		switch f.Kind {
+		case "dangling-link":
+			must(os.Symlink("nowhere-to-be-found.yaml", inPath(f.Path)))
+		case "fifo":
+			must(syscall.Mkfifo(inPath(f.Path), 0644))
+		default:
+			must(os.WriteFile(inPath(f.Path), []byte(f.Content), mode))
+		}
 	}
 	if w.CwdGo {
 		must(os.WriteFile("zz_unrelated.go", []byte("package unrelated\n\nimport \"strings\"\n\nvar Cfg = struct{ Field string }{strings.ToUpper(\"x\")}\n"), 0644))
@@ -478,7 +489,7 @@ func Exec(t Target, w *World) *Result {
 	ctl := &simrt.Ctl{
 		MapSeed: w.MapSeed, ListSeed: w.ListSeed, Clock: time.Unix(w.Clock, 0).UTC(), RandSeed: w.RandSeed,
 		Pid: w.Pid, Host: w.Host, Faults: append([]simrt.Fault{}, w.Faults...),
-		AltSeed: w.AltSeed, AltAll: w.AltAll, Root: top, Root2: inRoot,
+		AltSeed: w.AltSeed, AltAll: w.AltAll, Root: top, Root2: inRoot, StdoutFailFrom: w.StdoutFailFrom,
 	}
 	if len(w.AltSites) > 0 {
 		ctl.AltSites = map[string]bool{}
